@@ -12,7 +12,9 @@ from ..specs import *
 
 def result(unit, scope, evals, distinct, failures, exhaustive, t0):
     return {'unit': unit, 'kind': 'bounded', 'scope': scope, 'evaluations': evals, 'distinct_nontrivial': distinct,
-            'failures': failures[:5], 'exhaustive': exhaustive, 'obligations': [], 'undecided': [], 'functions': [], 'violations': [],
+            # failures that carry a case id (candidates for known_findings.json) never crowd out the others
+            'failures': [f for f in failures if not (isinstance(f, dict) and f.get('case_id'))][:5] + [f for f in failures if isinstance(f, dict) and f.get('case_id')][:16],
+            'exhaustive': exhaustive, 'obligations': [], 'undecided': [], 'functions': [], 'violations': [],
             'trusted': [], 'wall_s': round(time.time() - t0, 2)}
 
 
@@ -262,7 +264,24 @@ def check_c03(opts):
                 bad.append(('pipeline', out[1]))
             if bad:
                 fails.append({'pipeline': name, 'input': items, 'violations': [f'{n}: {m}' for n, m in bad[:4]]})
-    return result('e2e.C03.protocol_monitor', '16 nestings of group_by / roll / split / time_split / tee_map, taps at every boundary, 5 inputs (incl. empty)',
+    # mux errors crossing a key-spawning operator before they are handled (a raising map in front of roll / split / group_by / time_split,
+    # error.ignore behind it): the protocol must hold at the inner boundaries too
+    def boom(i):
+        if i == 'bad': raise ValueError(i)
+        return i
+    spawners = [('roll(3,1)', lambda inner: rs.data.roll(3, 1, inner)), ('roll(2,2)', lambda inner: rs.data.roll(2, 2, inner)),
+                ('split(i>3)', lambda inner: rs.data.split(lambda i: i > 3, inner)), ('time_split(10,5)', lambda inner: rs.data.time_split(lambda i: i, 10, 5, pipeline=inner))]
+    for sname, mk in spawners:
+        for items in ([1, 2, 'bad', 4, 5, 6], ['bad', 1, 2, 3], [1, 2, 3, 'bad']):
+            log = []
+            T = lambda n: tap(log, n)
+            out = run_mux(items, T('a'), rs.ops.map(boom), T('b'), mk(rx.pipe(T('in0'), rs.data.to_list(), T('in1'), rs.error.ignore())), T('c'), rs.error.ignore(), T('z'))
+            evals += 1; distinct.add((sname, 'error', tuple(items)))
+            bad = wf_violations(log)
+            if bad:
+                fails.append({'case_id': f'mux-error-crossing:{sname}:{items}', 'pipeline': f'map(raises on "bad") > {sname}[to_list, error.ignore] > error.ignore', 'input': items,
+                              'violations': [f'{n}: {m}' for n, m in bad[:4]], 'output': str(out)[:120]})
+    return result('e2e.C03.protocol_monitor', '16 nestings of group_by / roll / split / time_split / tee_map, taps at every boundary, 5 inputs (incl. empty); a mux error crossing roll / split / time_split before it is handled, 3 inputs',
                   evals, len(distinct), fails, False, t0)
 
 
@@ -356,6 +375,19 @@ def check_c06(opts):
             evals += 1
             if got != exp:
                 fails.append({'predicate': 'item[1] with 0.5 / the shared math.nan object / a fresh nan', 'input': repr(items), 'expected': exp, 'got': got})
+    # predicate values whose == is not transitive (OrderedDict == dict == OrderedDict in another order, but the two OrderedDicts differ):
+    # each item is compared with the PREVIOUS item's value, not with the first of the segment
+    from collections import OrderedDict as _OD
+    pv = {0: _OD([('x', 1), ('y', 2)]), 1: {'x': 1, 'y': 2}, 2: _OD([('y', 2), ('x', 1)]), 3: {'x': 9}}
+    for n in range(0, 6):
+        for ks in itertools.product((0, 1, 2, 3), repeat=n):
+            items = [(j, pv[k]) for j, k in enumerate(ks)]
+            got = run_mux(items, rs.data.split(lambda i: i[1], [rs.ops.map(lambda i: i[0]), rs.data.to_list()]))
+            exp = [[i[0] for i in seg] for seg in split_spec(items, lambda i: i[1])]
+            evals += 1
+            if got != exp:
+                fails.append({'predicate': 'item[1] over {OrderedDict(x,y), dict(x,y), OrderedDict(y,x), dict(x=9)} (== not transitive)', 'input (index into that set)': list(ks), 'expected': exp, 'got': got})
+                break
     # split nested in split / roll / group_by: a re-created key starts a fresh segment whatever the previous window ended with
     for n in range(0, 7):
         for bits in itertools.product((0, 1), repeat=n):
@@ -368,7 +400,7 @@ def check_c06(opts):
                 evals += 1
                 if got != exp:
                     fails.append({'pipeline': f'{wn} > split(bit) > to_list', 'input': items, 'expected': exp, 'got': got})
-    return result('e2e.C06.split', 'all sequences over {0..3} of length <= 5 x 5 predicates (exhaustive); all sequences of length <= 4 over {0.5, math.nan, a fresh nan} as predicate values; all bit sequences of length <= 6 with split nested in split / roll(3,3) / group_by',
+    return result('e2e.C06.split', 'all sequences over {0..3} of length <= 5 x 5 predicates (exhaustive); all sequences of length <= 4 over {0.5, math.nan, a fresh nan} as predicate values; all sequences of length <= 5 over 4 values with a non-transitive ==; all bit sequences of length <= 6 with split nested in split / roll(3,3) / group_by',
                   evals, evals, fails, True, t0)
 
 
@@ -377,7 +409,7 @@ def check_c07(opts):
     import datetime as dt
     t0 = time.time()
     fails = []; evals = 0
-    closings = [None, lambda i: i[1]]
+    closings = [None, lambda i: i[1], lambda i: 1 if i[1] else 0]      # a closing_mapper may answer with any truthy / falsy value
     base = dt.datetime(2024, 2, 28, 23, 59, 58)
     # time_mapper returns datetime objects and timeouts are timedeltas (the documented API); three time units so that neither
     # sub-second parts nor whole days may be dropped from a duration
@@ -404,8 +436,9 @@ def check_c07(opts):
                                         got = ('ERROR', f'{type(ex).__name__}: {ex}')
                                     exp = [w for w in time_split_spec(items, lambda i: i[0], A, IA, cm, inc)]
                                     evals += 1
-                                    # the real operator opens the window after a closing item eagerly: a trailing empty window is completed empty
-                                    if got != exp and got != [w for w in exp if w] and (not isinstance(got, list) or [w for w in got if w] != [w for w in exp if w]):
+                                    # exact comparison, empty windows included (the window after an included closing item opens eagerly, per the property's
+                                    # reference-timestamp rule, and is modelled by the spec)
+                                    if got != exp:
                                         show = lambda ws: [[(round((x[0] - base) / unit, 3), x[1]) for x in w] for w in ws] if isinstance(ws, list) else ws
                                         fails.append({'time unit': uname, 'active': a, 'inactive': ia, 'closing': cm is not None, 'include': inc,
                                                       'input (offsets in units, closing flag)': show([items])[0], 'expected': show(exp), 'got': show(got)})
@@ -486,6 +519,26 @@ def check_c08(opts):
                 evals += 1
                 if got != want:
                     fails.append({'pipeline': name, 'mode': mode, 'input': items, 'expected': want, 'got': got if isinstance(got, list) else str(got)[:200]})
+    # plain observables: branches made of RxPY operators, including ones that subscribe to their source through the scheduler (start_with, concat)
+    for items in ([1, 2, 3], [5]):
+        for bname, mkb in (('ops.start_with(0)', lambda: rx.pipe(ops.start_with(0))), ('ops.map(+1)', lambda: rx.pipe(ops.map(lambda i: i + 1))), ('ops.scan(+)', lambda: rx.pipe(ops.scan(lambda a, i: a + i, 0)))):
+            per = [branch_outputs(items, mkb), branch_outputs(items, branches[2][1])]
+            # start_with emits its prefix at subscription time, before the first source event: model it as part of event 0
+            exp = []; q = [None, None]; has = [False, False]
+            for step in range(len(items) + 1):
+                for bi in range(2):
+                    for v in per[bi][step]:
+                        q[bi] = v; has[bi] = True
+                        if all(has): exp.append(tuple(q)); has = [False, False]; q = [None, None]
+            if bname.startswith('ops.start_with'):
+                pre = branch_outputs([], mkb)[0]      # what the branch emits by itself
+                exp = None                            # expected: zip of [0, items...] with count 1..n (the branch run alone yields 0 first)
+                alone = [0] + list(items); cnt = list(range(1, len(items) + 1))
+                exp = list(zip(alone, cnt))
+            got = run_plain(items, rs.ops.tee_map(mkb(), branches[2][1](), join='zip'))
+            evals += 1
+            if got != exp:
+                fails.append({'case_id': f'plain-branch:{bname}:{items}', 'branches': [bname, 'count'], 'join': 'zip', 'mode': 'plain (cold synchronous source)', 'input': items, 'expected': exp, 'got': got})
     # the join state of a key does not outlive the key: tee_map inside tumbling windows / segments == tee_map run on each window alone
     ub = [('even', branches[1][1]), ('gt2', branches[5][1]), ('pos_first', lambda: rx.pipe(rs.ops.filter(lambda i: i > 0), rs.ops.first())),
           ('count_reduce', lambda: rx.pipe(rs.ops.count(reduce=True))), ('id', branches[0][1])]
@@ -811,13 +864,48 @@ def check_c12(opts):
                         fails.append({'aggregate': name, 'mode': mode, 'input': xs[:8], 'n': len(xs), 'after_item': i, 'expected': float(want) if want is not None else None, 'got': got}); break
                 if stream and isinstance(red[0], float) and isinstance(stream[-1], float) and red[0] != stream[-1] and not (math.isnan(red[0]) and math.isnan(stream[-1])):
                     fails.append({'aggregate': name, 'mode': mode, 'input': xs[:8], 'problem': 'streaming value after the last item differs from the reduce value', 'streaming_last': stream[-1], 'reduce': red[0]})
+    # stddev / formal.stddev = square root of the exact variance (60-digit decimal oracle), relative tolerance as for the variance
+    import decimal
+    decimal.getcontext().prec = 80
+    def dsqrt(fr):
+        return (decimal.Decimal(fr.numerator) / decimal.Decimal(fr.denominator)).sqrt()
+    for xs in fam + [[1.0, 3.0], [2.0, 2.0, 5.0], [1e-120, 3e-120], [1e120, 3e120, 2e120]]:
+        ex = exact_prefixes(xs)[-1]
+        for name, mk, var in (('stddev', lambda: rs.math.stddev(reduce=True), ex['variance']), ('formal.stddev', lambda: rs.math.formal.stddev(reduce=True), ex['formal.variance'])):
+            for mode in ('mux', 'plain'):
+                got = (run_mux if mode == 'mux' else run_plain)(xs, mk())
+                evals += 1
+                want = dsqrt(var)
+                l2 = math.sqrt(float(ex['sumsq'])) if ex['sumsq'] < Fraction(10) ** 600 else float('inf')
+                ok = isinstance(got, list) and len(got) == 1 and isinstance(got[0], float) and not math.isnan(got[0]) and not math.isinf(got[0])
+                if ok and want > 0:
+                    # d(sqrt v) = dv / (2 sqrt v): relative error of the deviation = half that of the variance, whose conditioning is ||x||_2 / sqrt(ss)
+                    cond = (decimal.Decimal(ex['sumsq'].numerator) / decimal.Decimal(ex['sumsq'].denominator)).sqrt() / dsqrt(ex['ss']) if ex['ss'] > 0 else decimal.Decimal(1)
+                    rel = abs(decimal.Decimal(got[0]) - want) / want
+                    ok = rel <= decimal.Decimal(8 * (len(xs) + 2)) * decimal.Decimal(EPS) * (1 + cond)
+                elif ok:
+                    ok = abs(got[0]) <= 1e-150
+                if not ok:
+                    fails.append({'aggregate': name, 'mode': mode, 'input': xs[:6], 'n': len(xs), 'expected': float(want), 'got': got if not isinstance(got, list) else got[:1]}); break
+    # the scales at which naive accumulation of squares / sums leaves the double range although the exact statistic is an ordinary double
+    extreme = [('sum', lambda: rs.math.sum(reduce=True), [1e308, 1e308, -1e308], 1e308), ('mean', lambda: rs.math.mean(reduce=True), [1e308, 1e308], 1e308),
+               ('stddev', lambda: rs.math.stddev(reduce=True), [1e-170, 3e-170], 1.4142135623730951e-170), ('formal.stddev', lambda: rs.math.formal.stddev(reduce=True), [1e-170, 3e-170], 1e-170),
+               ('stddev', lambda: rs.math.stddev(reduce=True), [1e160, 3e160], 1.4142135623730951e160), ('stddev', lambda: rs.math.stddev(reduce=True), [1e153 * k for k in range(1, 301)], None)]
+    for name, mk, xs, want in extreme:
+        if want is None:
+            want = float(dsqrt(exact_prefixes(xs)[-1]['variance']))
+        got = run_plain(xs, mk()); evals += 1
+        ok = isinstance(got, list) and len(got) == 1 and isinstance(got[0], float) and got[0] == got[0] and abs(got[0] - want) <= 1e-9 * abs(want)
+        if not ok:
+            fails.append({'case_id': f'extreme-scale:{name}:{xs[:3]}', 'aggregate': name, 'input': xs[:4], 'n': len(xs), 'expected': want, 'got': got if not isinstance(got, list) else got[:1],
+                          'note': 'the exact statistic is an ordinary double; an intermediate sum / square overflows or underflows'})
     # fewer than two items: variance 0 ; empty: sum 0, min/max None, variance 0.0
     for name, mk, want in (('sum', lambda: rs.math.sum(reduce=True), 0.0), ('min', lambda: rs.math.min(reduce=True), None), ('max', lambda: rs.math.max(reduce=True), None),
                            ('variance', lambda: rs.math.variance(reduce=True), 0.0)):
         got = run_mux([], mk()); evals += 1
         if got != [want]: fails.append({'aggregate': name, 'input': [], 'expected': [want], 'got': got})
     return result('e2e.C12.math', f'all sequences over a 6-value grid up to length 4 (exhaustive) + {len(fam)} seeded ill-conditioned families (offsets 1e6, scales 1e-150..1e150, n up to '
-                  f'{400 if tier == "quick" else 5000}); tolerance 8(n+2) eps x conditioning; exact oracle = fractions', evals, evals, fails, False, t0)
+                  f'{400 if tier == "quick" else 5000}); tolerance 8(n+2) eps x conditioning; exact oracle = fractions; stddev / formal.stddev against an 80-digit square root; 6 extreme-scale cases (1e308, 1e-170, 1e160, 1e153 x 300)', evals, evals, fails, False, t0)
 
 
 # ---------------------------------------------------------------------------------------------- C14 store
